@@ -1173,6 +1173,25 @@ var rulePool = &Rule{
 							}
 							return
 						case *ssa.Phi:
+							// a mutable object that the head of a loop receives from the loop's own body is the object of the
+							// previous task, carried over (`if obj == nil { obj = New() }` — created lazily once per worker)
+							if isMutableType(x.Type()) {
+								for h, bd := range loops {
+									if h != x.Block() {
+										continue
+									}
+									for i, p := range h.Preds {
+										if !bd[p] || i >= len(x.Edges) {
+											continue
+										}
+										if k, isC := x.Edges[i].(*ssa.Const); isC && k.Value == nil {
+											continue
+										}
+										bad = "object carried over from the previous iteration of the task loop (the loop head at " + c.Pos(h.Instrs[0].Pos()) + " receives it from the loop body)"
+										return
+									}
+								}
+							}
 							for _, e := range x.Edges {
 								walk(e, d+1)
 							}
